@@ -73,6 +73,7 @@ func hasProp(props []string, p string) bool {
 }
 
 type checkCtx struct {
+	update bool
 	ld     *Loaded
 	cs     *ContractSet
 	prop   string
@@ -114,7 +115,8 @@ func cmdCheck(args []string) int {
 		fmt.Fprintln(os.Stderr, "gv:", err)
 		return 2
 	}
-	ctx := &checkCtx{ld: ld, cs: cs, prop: *prop, tier: *tier, seed: seed}
+	currentProp = *prop
+	ctx := &checkCtx{ld: ld, cs: cs, prop: *prop, tier: *tier, seed: seed, update: *update}
 	ctx.opts = SolveOpts{Timeout: 10 * time.Second}
 	if *tier == "thorough" {
 		ctx.opts = SolveOpts{Timeout: 60 * time.Second, AllThree: true}
@@ -139,12 +141,16 @@ func cmdCheck(args []string) int {
 	merge(ctx.runSymbolic())
 	merge(ctx.runFrames())
 	merge(ctx.runPkgState())
+	merge(ctx.runFieldInvScan())
 	for _, extra := range extraJobs[*prop] {
 		merge(extra(ctx))
 	}
 
 	return ctx.report(total, *update, *verbose, start)
 }
+
+// currentProp is the property being checked ("" outside gv check).
+var currentProp string
 
 // extraJobs: property-specific back ends (frame, ghost predicates, regex
 // decider, finite evaluation, bounded stand-ins) registered elsewhere.
@@ -200,6 +206,13 @@ func (ctx *checkCtx) runSymbolic() *JobResult {
 	}
 	wg.Wait()
 	sort.Slice(results, func(i, j int) bool { return results[i].Key < results[j].Key })
+	if ctx.tier != "thorough" {
+		bp := loadBaseline().Obligations[ctx.prop]
+		ctx.opts.ShortOnly = func(name string) bool {
+			st, ok := bp[name]
+			return ok && st != "proved"
+		}
+	}
 	solveAll(results, ctx.opts)
 	// model hunting for undecided obligations that the baseline has as discharged
 	// (or does not know): a counterexample makes the report concrete.
@@ -249,7 +262,10 @@ func (ctx *checkCtx) runSymbolic() *JobResult {
 				rec.Detail = firstLines(o.Output, 4)
 			}
 			jr.Records = append(jr.Records, rec)
-			if o.Status == "refuted" && !o.Cover {
+			if st, inBase := bprop[o.Name]; o.Status == "refuted" && !o.Cover && inBase && st != "proved" && !ctx.update {
+				// already failing when the baseline was taken (triaged then):
+				// undecided, not a regression
+			} else if o.Status == "refuted" && !o.Cover {
 				// try to replay the model against the real code
 				path, outcome := ctx.replayObligation(r, o)
 				rec.Replay = path
@@ -385,6 +401,51 @@ func (ctx *checkCtx) report(total *JobResult, update, verbose bool, start time.T
 				path = writeReplayNote(replayDir, r)
 			}
 			violations = append(violations, fmt.Sprintf("VIOLATION property=%s replay=%s obligation=%s (replaces a discharged baseline obligation) no-failing-input-found", ctx.prop, path, r.Name))
+		}
+	}
+	// regression by count: a function that the baseline covers now has more
+	// undischarged obligations of a kind than it had, and the new ones are
+	// refuted by the solver (not merely timed out). Renaming an obligation
+	// (harmless refactor) keeps the count and raises nothing.
+	{
+		baseFn := map[string]bool{}
+		baseOpen := map[string]int{}
+		for name, st := range bprop {
+			fn, kind := splitObName(name)
+			baseFn[fn] = true
+			if st != "proved" && st != "exhaustive" {
+				baseOpen[fn+"#"+kind]++
+			}
+		}
+		nowOpen := map[string]int{}
+		for _, r := range total.Records {
+			if r.Cover || r.Bounded || r.Known != "" || r.Kind == "known-canary" || r.Kind == "known-site" {
+				continue
+			}
+			if r.Status != "proved" && r.Status != "exhaustive" {
+				fn, kind := splitObName(r.Name)
+				nowOpen[fn+"#"+kind]++
+			}
+		}
+		for fk, rs := range newFailing {
+			fn := fk
+			if i := strings.Index(fk, "#"); i >= 0 {
+				fn = fk[:i]
+			}
+			if !baseFn[fn] || vanishedFns[fk] || nowOpen[fk] <= baseOpen[fk] {
+				continue
+			}
+			for _, r := range rs {
+				if r.Status != "refuted" {
+					continue
+				}
+				path := r.Replay
+				if path == "" {
+					path = writeReplayNote(replayDir, r)
+				}
+				violations = append(violations, fmt.Sprintf("VIOLATION property=%s replay=%s obligation=%s (%s had %d undischarged %s obligations in the baseline, now %d) no-failing-input-found",
+					ctx.prop, path, r.Name, fn, baseOpen[fk], strings.TrimPrefix(fk, fn+"#"), nowOpen[fk]))
+			}
 		}
 	}
 	for _, e := range total.Errors {
